@@ -138,6 +138,7 @@ impl Runtime {
 
     fn enter_indirect(&mut self, line: Line) {
         self.cont = State::Stopped;
+        self.stack.clear();
         if line.is_empty() {
             if self.listing.remove(line.number()).is_some() {
                 self.dirty = true;
@@ -624,6 +625,8 @@ impl Runtime {
         if self.listing.remove_range(from..=to) {
             self.dirty = true;
             self.state = State::Stopped;
+            self.cont = State::Stopped;
+            self.stack.clear();
         }
         Ok(self.r#end())
     }
